@@ -82,6 +82,7 @@ void pqT(Case& c, bool rangeInit, bool removeOnEmpty, unsigned keyRange, unsigne
         bool r;
         {
           T key(v);
+          c.checking("result-removed");
           r = q.remove(key);
         }
         c.eq("result-removed", r, had != 0);
@@ -183,7 +184,7 @@ void runPQ(Case& c, Kind kind, const char* name) {
   bool tracked      = c.rng.below(2) == 0;
   bool greater      = c.rng.below(3) == 0;
   bool rangeInit    = c.rng.below(4) == 0;
-  bool roe          = c.rng.below(8) == 0; // remove() may be called on an empty queue
+  bool roe          = c.rng.below(32) == 0; // remove() may be called on an empty queue
   unsigned keyRange = c.rng.pick({4u, 16u, 16u, 1000u});
   unsigned nops     = c.pickOps();
   std::string cfg   = std::string(tracked ? "tracked" : "int") + (greater ? "|greater" : "|less") +
